@@ -175,8 +175,14 @@ def contracts():
 """, loops={1: """
     invariant all_positive(limits@),
 """},
-            rewrites=[("T-ITER", r"limits\.sort_by\(\|a, b\| a\.1\.partial_cmp\(&b\.1\)\.unwrap\(\)\)",
-                       "crate::titer::sort_by_duration_asc(&mut limits)")]),
+            # sort by the period: `x.1.partial_cmp(&y.1).unwrap()` / `x.1.cmp(&y.1)` with (x, y) = (a, b) is ascending, (b, a) descending;
+            # sort_by_key(|e| e.1) is ascending
+            rewrites=[("T-ITER", r"limits\.sort_by\(\|a, b\| (?P<x>[ab])\.1\.(?:partial_cmp\(&(?P<y>[ab])\.1\)\.unwrap\(\)|cmp\(&(?P<z>[ab])\.1\))\)",
+                       lambda m: ("crate::titer::sort_by_duration_asc(&mut limits)" if (m.group("x"), m.group("y") or m.group("z")) == ("a", "b")
+                                  else "crate::titer::sort_by_duration_desc(&mut limits)" if (m.group("x"), m.group("y") or m.group("z")) == ("b", "a")
+                                  else "crate::titer::sort_unknown(&mut limits)"), None),
+                      ("T-ITER", r"limits\.sort_by_key\(\|(?P<e>\w+)\| (?P=e)\.1\)", "crate::titer::sort_by_duration_asc(&mut limits)", None),
+                      ("T-ITER", r"limits\.sort_by_key\(\|(?P<e>\w+)\| (?:std::cmp::|cmp::)?Reverse\((?P=e)\.1\)\)", "crate::titer::sort_by_duration_desc(&mut limits)", None)]),
     }
 
 
